@@ -185,7 +185,11 @@ pub fn settle_until(rt: &Runtime, mut done: impl FnMut() -> bool) -> bool {
 /// drive one future to completion (used for set-up only: bind / connect / accept)
 pub fn drive<T: 'static>(rt: &Runtime, fut: impl Future<Output = T> + 'static) -> Option<T> {
     let mut t = Task::new(fut);
+    // set-up is not what is being judged: be generous (the polling driver sends socket(), bind(),
+    // listen() through its thread pool, whose thread may be starved on a busy machine)
+    let old = LIMIT_SCALE.with(|s| s.replace(6));
     let ok = settle_until(rt, || t.poll_if_woken());
+    LIMIT_SCALE.with(|s| s.set(old));
     if ok { t.take() } else { None }
 }
 
